@@ -33,6 +33,9 @@ def _fams(th):
         _e("c04_rep_build", "the real clientReplyContext::buildReplyHeader() on a cache miss being relayed: " + (" | ".join((any_, two, tail)) if th else tail) + _rep +
            ", Date; reply status 200; request cache_peer login in " + ("{none, PASS, PASSTHRU, PROXYPASS}" if th else "{none, PASS, PASSTHRU}") +
            ", flags.proxyKeepalive symbolic, client HTTP version in {1.0, 1.1}" + _b, ("listed-dropped", "unlisted-kept", "from-origin", "peer-auth-passed")),
+        _e("c04_rep_ws_colon", "origin block as below with SP, HTAB or SP HTAB between EVERY field name (Connection, X, Keep-Alive, TE, Trailer, Upgrade, Proxy-Connection, "
+           "Proxy-Authenticate, Transfer-Encoding) and its colon (tolerated in replies, whitespace removed); both reply kernels (removeHopByHopEntries() alone | buildReplyHeader()); " + two + " | " + tail + _rep + _b,
+           ("listed-dropped", "unlisted-kept")),
         _e("c04_rep_lists", " | ".join((any_, two, tail, head, mid, reg, name)) + _rep + _b, ("listed-dropped", "unlisted-kept")),
     ]
 SPEC = dict(
